@@ -1,22 +1,19 @@
 import BsVerif.Props.C12
 open BsVerif.Dap
 #print axioms C12_one_response_step
-#print axioms C12_one_response_partial
-#print axioms C12_one_response_counterexample
-#print axioms C12_one_response_continue_live
+#print axioms C12_one_response_from
+#print axioms C12_one_response
 #print axioms C12_cancel_records
 #print axioms C12_cancelled_request_answered
 #print axioms C12_thread_refresh_exact
 #print axioms C12_thread_events_partial
 #print axioms C12_thread_events_counterexample
-#print axioms C12_seq_is_wire_order_counterexample
-#print axioms C12_seq_is_wire_order_partial
+#print axioms C12_seq_is_wire_order
 #print axioms C12_seq_distinct_all_interleavings
-#print axioms C12_seq_is_wire_order_locked
 #print axioms C12_lifecycle_monitor
 #print axioms C12_lifecycle_once
-#print axioms C12_silent_after_terminated_partial
-#print axioms C12_silent_after_terminated_counterexample
+#print axioms C12_silent_after_terminated
+#print axioms C12_forwarders_silent_after_terminated
 #print axioms C12_error_not_silence
 #print axioms C12_never_silent
 #print axioms C12_error_not_silence_run_rule
